@@ -202,6 +202,44 @@ def replay_scenario(ctx, scn, scheme, TaxonomyTree, get_taxonomy_tree, variants=
                     pass
     except Exception as e:
         bad.append(('from_label_columns', f'raised {type(e).__name__}: {e}'))
+    # the same label columns as CATEGORICAL columns of an h5ad file, plus two cells without any label: the label
+    # combination "missing at every level" is a lineage of its own ('nan'), nothing else changes
+    if ctx.tier != 'quick' or (len(tj['nodes'][-1]) + len(hier)) % 3 == 0:
+        try:
+            import anndata
+            import pandas as pd
+            import tempfile
+            cols = {nm.level(l): [r[nm.level(l)] for r in records] + [None, None] for l in hier}
+            obs = pd.DataFrame({k: pd.Categorical(v) for k, v in cols.items()},
+                               index=[f'c{i}' for i in range(len(records) + 2)])
+            with tempfile.TemporaryDirectory(dir=str(ctx.scratch)) as td:
+                pth = td + '/labels.h5ad'
+                with warnings.catch_warnings():
+                    warnings.simplefilter('ignore')
+                    anndata.AnnData(X=np.zeros((len(obs), 1)), obs=obs,
+                                    var=pd.DataFrame(index=['g'])).write_h5ad(pth)
+                    t2 = TaxonomyTree.from_h5ad(pth, [nm.level(l) for l in hier])
+            d2 = json.loads(t2.to_str())
+            n_rec = len(records)
+            for k, l in enumerate(hier):
+                tab = d2[nm.level(l)]
+                if l != leaf:
+                    want = {nm.node(l, a): sorted(nm.node(hier[k + 1], c) for c in kids)
+                            for a, kids in tj['kids'][k]}
+                    want['nan'] = ['nan']
+                    got = {a: sorted(b) for a, b in tab.items()}
+                else:
+                    want = {}
+                    for i, r in enumerate(records):
+                        want.setdefault(r[nm.level(leaf)], []).append(i)
+                    want['nan'] = [n_rec, n_rec + 1]
+                    got = {a: sorted(b) for a, b in tab.items()}
+                if got != want:
+                    bad.append(('from_h5ad', f'level {l}: tree built from categorical label columns with two un-annotated '
+                                             f'cells is {got}, expected {want}'))
+                    break
+        except Exception as e:
+            bad.append(('from_h5ad', f'raised {type(e).__name__}: {e}'))
     # malformed variants
     if variants:
         n_two = 0
